@@ -148,6 +148,8 @@ type replInfo struct {
 	Exists   bool
 	Init     bool
 	Launched bool
+	HasNode  bool // the replacement's Node object exists (it registered): created when it initializes after its launch
+	InState  bool // ground truth of the deliveries: the last event the cluster state received for this NodeClaim was not its deletion
 }
 
 type cmdInfo struct {
@@ -285,6 +287,26 @@ func (w *world) restart() {
 			w.cluster.UpdateNodeClaim(nc)
 		}
 	}
+	for _, key := range w.rorder {
+		r := w.repls[key]
+		r.InState = r.Exists
+		if r.HasNode {
+			node := &corev1.Node{}
+			if err := w.inner.Get(w.ctx, client.ObjectKey{Name: fmt.Sprintf("repl-node-%d-%d", r.K, r.J)}, node); err == nil {
+				must(w.cluster.UpdateNode(w.ctx, node))
+			}
+		}
+	}
+}
+
+func (w *world) dropReplNode(r *replInfo) {
+	name := fmt.Sprintf("repl-node-%d-%d", r.K, r.J)
+	node := &corev1.Node{}
+	if err := w.inner.Get(w.ctx, client.ObjectKey{Name: name}, node); err == nil {
+		must(client.IgnoreNotFound(w.inner.Delete(w.ctx, node)))
+	}
+	w.cluster.DeleteNode(name)
+	r.HasNode = false
 }
 
 // newAPI is controller-runtime's in-memory client with the operator's indexes, over a scheme that holds
@@ -398,9 +420,15 @@ func (w *world) replsReady(id int) (api bool, tracked bool) {
 		} else if !nc.StatusConditions().Get(v1.ConditionTypeInitialized).IsTrue() {
 			api = false
 		}
-		if !w.cluster.NodeClaimExists(name) {
-			tracked = false
+		// "tracked" is the ground truth of the deliveries, not Cluster.NodeClaimExists (that index is under test;
+		// it is compared with the model in every snapshot)
+		w.mu.Lock()
+		for _, r := range w.repls {
+			if r.Name == name && !r.InState {
+				tracked = false
+			}
 		}
+		w.mu.Unlock()
 	}
 	return api, tracked
 }
@@ -459,7 +487,7 @@ func (w *world) funcs() interceptor.Funcs {
 				return err
 			}
 			w.mu.Lock()
-			r := &replInfo{K: key[0], J: key[1], Name: obj.GetName(), Created: true, Exists: true}
+			r := &replInfo{K: key[0], J: key[1], Name: obj.GetName(), Created: true, Exists: true, InState: true} // Provisioner.Create hands it to the cluster state
 			w.repls[key] = r
 			w.rorder = append(w.rorder, key)
 			w.effects = append(w.effects, effect{Kind: "create", A: key[0], B: key[1], Flag: marked})
@@ -772,7 +800,7 @@ func (w *world) exec(o *jOp) []effect {
 		default:
 			o.Ret = "COk"
 		}
-	case "launch", "init", "delapi", "delstate":
+	case "launch", "init", "delapi", "delapi-node-first", "delstate":
 		o.Ret = "EnvOk"
 		r := w.repls[[2]int{o.K, o.J}]
 		if r == nil {
@@ -793,6 +821,7 @@ func (w *world) exec(o *jOp) []effect {
 				must(w.inner.Get(w.ctx, client.ObjectKey{Name: r.Name}, nc))
 				w.cluster.UpdateNodeClaim(nc)
 				r.Launched = true
+				r.InState = true
 			}
 		case "init":
 			if r.Exists {
@@ -804,7 +833,25 @@ func (w *world) exec(o *jOp) []effect {
 				cs.SetTrue(v1.ConditionTypeInitialized)
 				must(w.inner.Status().Update(w.ctx, nc))
 				r.Init = true
+				if r.Launched && !r.HasNode {
+					// an Initialized replacement has a registered, initialized Node; the informer delivers it
+					name := fmt.Sprintf("repl-node-%d-%d", r.K, r.J)
+					node := test.Node(test.NodeOptions{ObjectMeta: metav1.ObjectMeta{Name: name, Labels: map[string]string{
+						v1.NodePoolLabelKey: w.pool.Name, v1.NodeRegisteredLabelKey: "true", v1.NodeInitializedLabelKey: "true",
+						corev1.LabelInstanceTypeStable: w.it.Name, v1.CapacityTypeLabelKey: v1.CapacityTypeOnDemand, corev1.LabelTopologyZone: "test-zone-1",
+						corev1.LabelHostname: name}}, ProviderID: nc.Status.ProviderID})
+					node.Namespace = ""
+					kit.Apply(w.ctx, w.inner, node)
+					must(w.cluster.UpdateNode(w.ctx, node))
+					r.HasNode = true
+				}
 			}
+		case "delapi-node-first":
+			// the replacement's Node goes first (API + cluster state), then its NodeClaim leaves the API
+			if r.Exists && r.HasNode {
+				w.dropReplNode(r)
+			}
+			fallthrough
 		case "delapi":
 			if r.Exists {
 				nc := &v1.NodeClaim{}
@@ -818,8 +865,10 @@ func (w *world) exec(o *jOp) []effect {
 			}
 		case "delstate":
 			// the informer delivers a deletion only of an object that is gone from the API
+			// (a replacement's Node, if it registered, lingers unless "delapi-node-first" removed it)
 			if !r.Exists {
 				w.cluster.DeleteNodeClaim(r.Name)
+				r.InState = false
 			}
 		}
 	case "gone":
@@ -953,6 +1002,7 @@ type cmdSnap struct {
 type replSnap struct {
 	K, J                         int
 	Exists, Init, Launched, InSt bool
+	HasNode                      bool // not part of the model: the replacement's Node object exists
 }
 
 type snapshot struct {
@@ -1037,7 +1087,7 @@ func (w *world) snapshot() snapshot {
 	sort.Slice(keys, func(a, b int) bool { return keys[a][0] < keys[b][0] || keys[a][0] == keys[b][0] && keys[a][1] < keys[b][1] })
 	for _, key := range keys {
 		r := w.repls[key]
-		s.Repls = append(s.Repls, replSnap{K: r.K, J: r.J, Exists: r.Exists, Init: r.Init, Launched: r.Launched, InSt: w.cluster.NodeClaimExists(r.Name)})
+		s.Repls = append(s.Repls, replSnap{K: r.K, J: r.J, Exists: r.Exists, Init: r.Init, Launched: r.Launched, InSt: w.cluster.NodeClaimExists(r.Name), HasNode: r.HasNode})
 	}
 	return s
 }
